@@ -115,6 +115,21 @@ def eq_term(kind, w, p, x, text):
     return f'String.eqb ({term(kind, w, p, x)}) {qconv.coq_bytes(text)}'
 
 
+def parse_term(kind, text):
+    """Coq bool: the model's reading of a printed field (parse_dec / parse_dec_comma / parse_sci) is the decimal Python reads
+    from the same text; None when the text is not a finite number of that kind"""
+    from decimal import Decimal, InvalidOperation
+    fn = {'F': 'parse_dec', 'Fc': 'parse_dec_comma', 'E': 'parse_sci', 'Eu': 'parse_sci', 'G': 'parse_sci' if 'e' in text else 'parse_dec'}.get(kind)
+    try:
+        d = Decimal(text.strip().replace(',', ''))
+    except InvalidOperation:
+        return None
+    if fn is None or not d.is_finite():
+        return None
+    f = Fraction(d)
+    return f'match {fn} {qconv.coq_bytes(text)} with Some z => Qeq_bool z ({f.numerator} # {f.denominator}) | None => false end'
+
+
 def next_after(x, up=True):
     return math.nextafter(x, math.inf if up else -math.inf)
 
